@@ -10,7 +10,7 @@ Nothing here imports klongpy, numpy or torch.  A tree is a nested tuple (JSON-ab
     ('cb', op, c, side, E)     constant operand: side 'l' is  c op E,  side 'r' is  E op c    (op in + - * %)
     ('pow', c, E)              E^c with a constant exponent
     ('bin', op, A, B)          A op B, scalar/scalar, vector/vector (same length), scalar/vector (extension)
-    ('red', '+' | '*', V)      +/V   */V
+    ('red', '+' | '*' | '|' | '&', V)      +/V   */V   |/V   &/V
     ('each', lam, V)           lam'V  with lam a key of LAMBDAS (a smooth monadic lambda applied to every element)
     ('join', A, B)             (A),(B)  -- only at the top of vector-valued functions (Jacobian checks)
 
@@ -251,6 +251,13 @@ def _ev0(t, b, n):
         v = _ev(t[2], b, n)
         if not isinstance(v, list) or not v:
             raise ValueError('reduction of a non-vector')
+        if t[1] in '|&':
+            # Max-Over / Min-Over: the derivative is that of the extreme element; two elements (nearly) sharing the
+            # extreme value are a kink of the function - no derivative is prescribed there
+            order = sorted(v, key=lambda e: e.v, reverse=(t[1] == '|'))
+            if len(order) > 1 and abs(order[0].v - order[1].v) <= 1e-3 * max(1.0, abs(order[0].v)):
+                raise NotSmooth('max/min over elements that (nearly) tie')
+            return order[0]
         acc = v[0]
         for e in v[1:]:
             acc = add(acc, e) if t[1] == '+' else mul(acc, e)
